@@ -88,9 +88,15 @@ def subsets(n, full_upto):
 # generic checks
 # ---------------------------------------------------------------------------------------
 
-def check_valid(m1, kind1, bad, hanging=True):
+def check_valid(m1, kind1, bad, hanging=True, unused_ok=False):
     nn = REF[kind1]['nn']
     pr = geometry_problems(kind1, m1.p, np.asarray(m1.t)[:nn], check_hanging=hanging)
+    if unused_ok:
+        pr = [q for q in pr if 'not referenced' not in q]
+        if pr:
+            bad('invalid-result', '; '.join(pr[:3]))
+            return False
+        return True
     if pr:
         bad('invalid-result', '; '.join(pr[:3]))
         return False
@@ -243,6 +249,47 @@ def ops_for(st, bd, level):
                         seen[kk] = v
                 out.outcome(('join', len(A), len(B)))
             ops.append((f'restrict({list(A)})+restrict({list(B)})', thunk, j_join))
+            if len(ops) % 3 == 0:
+                # the same two parts as meshes that keep the WHOLE vertex array (unused vertices, also trailing ones)
+                def thunk_u(m, A=A, B=B):
+                    nn_ = REF[kind]['nn']
+                    kw_ = {'sort_t': False} if type(m).__name__ == 'MeshTri1' and not m.sort_t else {}
+                    a = type(m)(m.p.copy(), m.t[:, list(A)].copy(), **kw_)
+                    b = type(m)(m.p.copy(), m.t[:, list(B)].copy(), **kw_)
+                    return a + b, [a, a], a, b
+
+                def j_join_u(m0, res, bad, out, A=A, B=B):
+                    m1 = res[0]
+                    k0 = cell_keys(m0, kind)
+                    want = [k0[c] for c in A] + [k0[c] for c in B]
+                    if cell_keys(m1, kind) != want:
+                        bad('join-cells', f"the join of two meshes that keep unused vertices (cells {list(A)} + cells {list(B)} over "
+                            f"the whole vertex array) does not reproduce the cells")
+                        return
+                    check_valid(m1, kind, bad, hanging=False, unused_ok=True)
+                    out.outcome(('join-unused', len(A), len(B)))
+                ops.append((f'keep-all-vertices({list(A)})+keep-all-vertices({list(B)})', thunk_u, j_join_u))
+    # ---- join with the reflection in the plane x0 = min x0 (shared vertices carry +0.0 on one side and -0.0 on the other)
+    if not cheap and nt <= 8:
+        def thunk_r(m):
+            x0 = float(m.p[0].min())
+            sh = m.translated(tuple([-x0] + [0.] * (dim - 1)))
+            return sh + sh.scaled(tuple([-1.] + [1.] * (dim - 1))), sh
+
+        def j_refl(m0, res, bad, out):
+            m1, sh = res
+            on_plane = int((sh.p[0, np.unique(sh.t[:REF[kind]['nn']])] == 0).sum())
+            nv_used = len(np.unique(sh.t[:REF[kind]['nn']]))
+            if m1.t.shape[1] != 2 * m0.t.shape[1]:
+                bad('join-reflection-cells', f"{m1.t.shape[1]} cells after joining a mesh with its reflection")
+                return
+            if m1.p.shape[1] != 2 * nv_used - on_plane:
+                bad('join-reflection-vertices', f"mesh + reflection in the plane x0 = min x0: {m1.p.shape[1]} vertices, expected "
+                    f"{2 * nv_used - on_plane} ({on_plane} vertices lie on the plane and are shared; +0.0 / -0.0)")
+                return
+            check_valid(m1, kind, bad, hanging=False)
+            out.outcome(('join-reflection', on_plane))
+        ops.append(('m + reflection(x0 = min x0)', thunk_r, j_refl))
 
     # ---- splits -----------------------------------------------------------------------------
     def j_split(kind1, nchild):
@@ -315,8 +362,8 @@ def ops_for(st, bd, level):
             yield 'sorted', MeshLine(zs)
             # same points, numbering not monotone in the coordinate (as after refinement / renumbering)
             yield 'scrambled', MeshLine(np.array([[2., 0., .5]]), np.array([[1, 2], [2, 0]]))
-            yield 'refined', MeshLine(np.array([0., 2.])).refined([0]).refined([0]) if False else \
-                MeshLine(np.array([0., .5, 2.]))
+            # same points and numbering, the elements stored in another order (not one ascending chain)
+            yield 'cells-reversed', MeshLine(np.array([[0., .5, 2.]]), np.array([[1, 0], [2, 1]]))
 
         held = {}
 
@@ -352,6 +399,7 @@ def ops_for(st, bd, level):
             out.outcome(('extrude', kind1, m1.t.shape[1]))
         ops.append(('*MeshLine([0,.5,2])', thunk, j_ext))
         ops.append(('*MeshLine([2,0,.5] scrambled numbering)', lambda m: thunk(m, 'scrambled'), j_ext))
+        ops.append(('*MeshLine([0,.5,2] cells stored in reverse)', lambda m: thunk(m, 'cells-reversed'), j_ext))
 
     # ---- coordinate maps --------------------------------------------------------------------------
     def j_map(phi, tol=0.0, name='map'):
